@@ -176,6 +176,21 @@ func runPathRel(line string, res *rep.Result) {
 			res.Violate("C09", sig("JoinPaths", "join", "concat", "other"), fmt.Sprintf("JoinPaths(%s, %s) = %v", f[0], f[1], j), pc)
 		}
 	}
+	// JoinPaths twice with the same prefix (whose element slice has spare capacity): the first
+	// result must not change
+	if !wantErr {
+		pre := proto.Clone(a).(*gpb.Path)
+		pre.Elem = append(make([]*gpb.PathElem, 0, len(pre.Elem)+4), pre.Elem...)
+		j1, e1 := util.JoinPaths(pre, b)
+		other := &gpb.Path{Origin: b.Origin, Elem: []*gpb.PathElem{{Name: "zz", Key: map[string]string{"q": "r"}}, {Name: "yy"}}}
+		_, e2 := util.JoinPaths(pre, other)
+		if e1 == nil && e2 == nil && !elemsEqual(j1.Elem, append(append([]*gpb.PathElem{}, a.Elem...), b.Elem...)) {
+			res.Violate("C09", sig("JoinPaths", "join-aliases-prefix", "independent", "overwritten"), fmt.Sprintf("the result of JoinPaths(%s, %s) changed when JoinPaths was called again with the same prefix: now %v", f[0], f[1], j1), pc)
+		}
+		if !proto.Equal(proto.Clone(a), &gpb.Path{Origin: pre.Origin, Elem: pre.Elem}) {
+			res.Violate("C11", sig("JoinPaths", "input-mutated", "", ""), "JoinPaths modified its prefix argument: "+line, pc)
+		}
+	}
 	if !proto.Equal(a, ac) || !proto.Equal(b, bc) {
 		res.Violate("C11", sig("util path functions", "input-mutated", "", ""), "a util path function modified its argument: "+line, pc)
 	}
